@@ -51,7 +51,7 @@ ASSUMPTIONS = [
 RULE = ("one case = one real generator call (mask or return_acs) or one kernel call compared with the model; generators x modes "
         "x ranks 3..5 x rows/cols from {8..80} incl. odd, even, non-square; non-trivial = a generator call that returned a mask "
         "with at least two rows and columns (kernels: a non-degenerate input); distinct = distinct protocol line")
-PENDING_FINDINGS: list[str] = ["generator-crashes/VariableDensityPoisson/active-list-overrun"]   # C07 known finding, same key
+PENDING_FINDINGS: list[str] = ["generator-crashes/VariableDensityPoisson/active-list-overrun"]   # listed as known: for C04 by the lead (same key as C07)
 EXTRA_LEAN_MODULES = ["DirectVerif.Lemmas.C04List", "DirectVerif.Lemmas.C06Assemble", "DirectVerif.Lemmas.C04Loops",
                       "DirectVerif.Lemmas.C04Interior"]
 
